@@ -297,7 +297,7 @@ def eraseEntry (e : Entry) : Entry := { e with sec := [] }
 def eraseStr (kv : String × String) : String × String := (kv.1, "")
 
 inductive LErr | temp | missingPassword | alreadyEncrypted | notEncrypted | missingSecrets | invalidPassword
-  | badSecrets | missingKey (k : String)
+  | badSecrets | missingKey (k : String) | missingCryptoType | unknownCrypto
 deriving DecidableEq, Repr
 
 /-- `Wallet.Lock(password)` -/
@@ -350,6 +350,50 @@ def unlock (C : Cipher) (w : Wallet) (pw : Bytes) : Except LErr Wallet :=
         | .ok ss => match unpackEntries keys w.entries with
           | .error x => .error x
           | .ok es => .ok { w with strs := ss, entries := es, encrypted := false, secrets := [] }
+
+/-! ### which cipher: the recorded crypto type and the default
+
+`Lock` reads the meta field `cryptoType`; a wallet whose meta has none (files written by old
+releases, loaded unencrypted) is locked with `crypto.DefaultCryptoType`, and the type that was USED
+is what `SetEncrypted` records.  `Unlock` refuses a wallet without a recorded type. -/
+
+/-- `crypto.GetCrypto` (the table of registered ciphers) and `crypto.DefaultCryptoType` -/
+structure Ciphers where
+  get : String → Option Cipher
+  default : String
+
+def setS (k v : String) : List (String × String) → List (String × String)
+  | [] => [(k, v)]
+  | (a, b) :: r => if a = k then (k, v) :: r else (a, b) :: setS k v r
+
+/-- `Meta.CryptoType()`: "" when the field is absent -/
+def recorded (w : Wallet) : String := (lookupS "cryptoType" w.pubMeta).getD ""
+
+/-- the type Lock uses -/
+def effType (T : Ciphers) (w : Wallet) : String := if recorded w = "" then T.default else recorded w
+
+def withType (ct : String) (w : Wallet) : Wallet := { w with pubMeta := setS "cryptoType" ct w.pubMeta }
+
+/-- `Wallet.Lock(password)` with the cipher looked up -/
+def lockT (T : Ciphers) (w : Wallet) (pw rnd : Bytes) : Except LErr Wallet :=
+  if w.temp then .error .temp
+  else if pw.length = 0 then .error .missingPassword
+  else if w.encrypted then .error .alreadyEncrypted
+  else match T.get (effType T w) with
+    | none => .error .unknownCrypto
+    | some C => match lock C w pw rnd with
+      | .ok w' => .ok (withType (effType T w) w')
+      | .error e => .error e
+
+/-- `Wallet.Unlock(password)` with the cipher looked up -/
+def unlockT (T : Ciphers) (w : Wallet) (pw : Bytes) : Except LErr Wallet :=
+  if !w.encrypted then .error .notEncrypted
+  else if pw.length = 0 then .error .missingPassword
+  else if w.secrets.length = 0 then .error .missingSecrets
+  else if recorded w = "" then .error .missingCryptoType
+  else match T.get (recorded w) with
+    | none => .error .unknownCrypto
+    | some C => unlock C w pw
 
 /-- the secret fields that the serialised form of a wallet carries IN CLEAR: every named secret
 string and every entry's secret key that is not empty/null -/
